@@ -40,6 +40,9 @@ def src_globals(gv, ln, gk="int", tn=0, cfg=None):
     return g + c + "L = %r\nT = (0, %r)\n" % (list(range(ln)), list(range(tn)))
 
 
+SRC_LEN = "def len(x):\n    return 3\n"  # a module-level function shadowing the builtin that h uses
+
+
 def src_u():
     return "def u():\n    return 0\n"
 
@@ -75,6 +78,8 @@ def full_text(st):
     t = src_globals(st["G"], st["L"], st.get("Gk", "int"), st.get("T", 0), st.get("cfg"))
     if st["u"]:
         t += src_u()
+    if st.get("len"):
+        t += SRC_LEN
     t += SRC_K + src_g(st["g"], st["gk"], st.get("gd", False))
     if st.get("htwin"):
         t += "import %s\nh = %s.h\n" % (TWIN, TWIN)
@@ -86,7 +91,7 @@ def full_text(st):
 EVENTS = ["redef-f", "redef-g", "redef-h", "rebind-G", "mutate-L", "define-u", "g-to-plain", "g-to-memento",
           "clone-partial", "clone-context", "clone-force-local", "wrapper", "query-f", "query-g", "query-clone", "query-wrapper",
           "redef-f-same", "rebind-G-to-function", "rebind-G-to-object", "undo-g", "mutate-T-inner", "g-declares-dependency", "rebind-h-to-twin-from-another-module",
-          "define-attribute-on-the-class", "define-attribute-on-the-instance"]
+          "define-attribute-on-the-class", "define-attribute-on-the-instance", "define-global-shadowing-a-builtin"]
 
 
 def fresh_versions(st):
@@ -193,6 +198,13 @@ def _history(events, L, warm):
                 st["cfg"] = "class" if name.endswith("class") else "instance"
                 prog.exec("Cfg.limit = 10\n" if st["cfg"] == "class" else "CFG.limit = 10\n")
                 cover("dotted-symbol-defined-late")
+            elif name == "define-global-shadowing-a-builtin":
+                # h calls len(..): so far the builtin; the module now binds its own plain function of that name
+                if st.get("len") or st.get("htwin"):
+                    continue
+                st["len"] = True
+                prog.exec(SRC_LEN)
+                cover("builtin-shadowed-late")
             elif name == "mutate-L":
                 st["L"] += 1
                 prog.L.append(st["L"] - 1)
@@ -248,11 +260,11 @@ def _history(events, L, warm):
 
 @obligation(
     "C13.histories",
-    covers=("query", "query-clone", "query-wrapper", "query-after-event", "warm-cache", "definition-restored", "helper-replaced-by-identical-text-from-another-module", "dotted-symbol-defined-late"),
+    covers=("query", "query-clone", "query-wrapper", "query-after-event", "warm-cache", "definition-restored", "helper-replaced-by-identical-text-from-another-module", "dotted-symbol-defined-late", "builtin-shadowed-late"),
     split={"e0": list(range(len(EVENTS)))},
     bounds="all event sequences of length <= L over %d events (redefine f/g/h, restore g's previous edition, re-define g with the same body but a declared dependency, rebind / mutate tracked variables (incl. a list inside a tracked tuple), rebind the plain helper to a textually identical function of another module, rebind a tracked variable to a function / an "
            "arbitrary object, define an undefined "
-           "symbol, define an undefined attribute of a tracked instance on its class / on the instance, memento<->plain, three kinds of modifier clone, unregistered wrapper, version queries of f/g/clone/wrapper) on the "
+           "symbol, define an undefined attribute of a tracked instance on its class / on the instance, define a module-level function shadowing a builtin the helper uses, memento<->plain, three kinds of modifier clone, unregistered wrapper, version queries of f/g/clone/wrapper) on the "
            "program f -> h -> g with globals G, L; L = 3 quick, 4 thorough; version cache warm or cold at the start" % len(EVENTS),
     variables="choice: e0..e3 (event indices), warm bit",
     tier_args={"quick": {"L": 3}, "thorough": {"L": 4}},
